@@ -15,7 +15,7 @@ from ..agree import (
 from ..cfg import CFG
 from ..model import AnalysisError, Cls, Func, Repo, is_self_attr, short, walk_no_nested
 from ..report import RuleResult
-from .common import cfg_of, exported_estimators, norm, surface_estimators
+from .common import cfg_of, exported_estimators, norm, surface_estimators, value_form
 
 
 # --------------------------------------------------------------------------- R2.1
@@ -86,7 +86,7 @@ def _summary(repo: Repo, c: Cls, f: Func):
                         n.lineno,
                         n.col_offset,
                         n.func.attr,
-                        tuple(sorted((k, norm(v)) for k, v in bound.items())),
+                        tuple(sorted((k, value_form(v, f, n)) for k, v in bound.items())),
                     )
                 )
         targets = []
